@@ -60,7 +60,7 @@ def dump(outpath):
 
     def _alarm(*a):
         raise _TO()
-    signal.signal(signal.SIGALRM, _alarm)
+    signal.signal(signal.SIGVTALRM, _alarm)        # CPU time of this process, not wall time: a loaded machine must not fail the gate
     res = []
     for suite, meth, steps in cases():
         shared = W.interpreter()
@@ -68,7 +68,7 @@ def dump(outpath):
             if ".rn" in text or "random" in text:
                 continue
             k = shared if sh else W.interpreter()
-            signal.alarm(5)
+            signal.setitimer(signal.ITIMER_VIRTUAL, 20)
             try:
                 with contextlib.redirect_stdout(io.StringIO()):
                     r = k(text)
@@ -82,7 +82,7 @@ def dump(outpath):
                 else:
                     c = ["exc", n]
             finally:
-                signal.alarm(0)
+                signal.setitimer(signal.ITIMER_VIRTUAL, 0)
             res.append([suite, meth, text, c])
     json.dump(res, open(outpath, "w"), default=str)
 
@@ -102,15 +102,17 @@ def gate(verbose=False):
         outs[mode] = json.load(open(outp)); os.remove(outp)
     if len(outs["sym"]) != len(outs["real"]):
         return {"ok": False, "error": "different number of cases"}
-    bad, outside, agree = [], [], 0
+    bad, outside, agree, timeouts = [], [], 0, 0
     for s, r in zip(outs["sym"], outs["real"]):
         if s[3] == r[3]:
             agree += 1
+        elif s[3] == ["timeout"] or r[3] == ["timeout"]:
+            timeouts += 1                       # neither agreement nor disagreement
         elif isinstance(s[3], list) and s[3] and s[3][0] == "outside-model":
             outside.append(s[2])
         else:
             bad.append({"suite": s[0], "test": s[1], "expr": s[2], "model": s[3], "numpy": r[3]})
-    return {"ok": not bad, "cases": len(outs["sym"]), "agree": agree, "outside_model": len(outside), "disagree": bad[:40],
+    return {"ok": not bad, "cases": len(outs["sym"]), "agree": agree, "timeouts": timeouts, "outside_model": len(outside), "disagree": bad[:40],
             "n_disagree": len(bad), "outside_examples": outside[:10]}
 
 
